@@ -715,7 +715,7 @@ Quiescent == /\ \A e \in Endpoints : Alive(E[e]) => (net[e] = <<>> \/ ~E[e].wsOp
              /\ \A e \in Endpoints : E[e].pending = <<>> /\ ~E[e].tRun
              /\ \A e \in Endpoints : E[e].ran
              /\ \A e \in Endpoints : E[e].wsOpen \/ EosSent(e) \/ ~E[Peer(e)].wsOpen
-PairOb(e) == [st |-> E[e].st, wsOpen |-> E[e].wsOpen, nSetup |-> acc[e].nSetup, idOk |-> E[e].idOk]
+PairOb(e) == [st |-> E[e].st, wsOpen |-> E[e].wsOpen, nSetup |-> acc[e].nSetup, idOk |-> E[e].idOk, nClosed |-> acc[e].nClosed]
 TrustGiven == ~cancelled /\ \E e \in Endpoints : E[e].role = "server" /\ (Paired0[e] \/ Auto0[e] \/ approvedPending)
 IdsCompatible == \A e \in Endpoints : Stored0[e] = "none" \/ Stored0[e] = MyId[Peer(e)]
 TrustAny == \E e \in Endpoints : E[e].role = "server" /\ (Paired0[e] \/ Auto0[e] \/ approvedAny)
